@@ -40,7 +40,8 @@ def run(ctx, factor):
                 meta.append(("direct", l["mnem"], t))
             elif k == 5:
                 l["mnem"] = g.pick(["call", "jmp"])
-                l["ops"] = [{"k": "star", "r": "rax"}] if g.chance(0.5) else [{"k": "mem", "disp": "*0x%x" % t, "a": "%rip"}]
+                l["ops"] = g.pick([[{"k": "star", "r": "rax"}], [{"k": "mem", "disp": "*0x%x" % t, "a": "%rip"}],
+                                   [{"k": "target", "h": "*0x%x" % t}], [{"k": "target", "h": "*%x" % t}]])   # `call *0x401000`: indirect through memory, no register
                 l["annot"] = None
                 meta.append(("indirect", l["mnem"], None))
             elif k == 6:
